@@ -79,29 +79,40 @@ func drainChannel(n *nsqd.NSQD, topic, channel string, deadline time.Time) ([]st
 	}
 	rd := bufio.NewReader(c)
 	var ids []string
+	quiet := 0
 	for {
+		// nsqd moves a timed-out message from "in flight" back to the queue in two steps; between them it is in
+		// neither count.  Only a channel that reads empty on many consecutive looks (>= 0.5 s) is empty.
 		cc, _ := channelCounts(n, topic, channel)
 		if cc.Depth == 0 && cc.InFlight == 0 && cc.Deferred == 0 {
-			return ids, nil
+			quiet++
+			if quiet >= 10 {
+				return ids, nil
+			}
+			time.Sleep(50 * time.Millisecond)
+		} else {
+			quiet = 0
 		}
 		if time.Now().After(deadline) {
 			return ids, fmt.Errorf("channel not drained: %+v", cc)
 		}
-		c.SetReadDeadline(time.Now().Add(200 * time.Millisecond))
-		var hdr [8]byte
-		if _, err := io.ReadFull(rd, hdr[:]); err != nil {
+		// Peek does not consume: a frame that arrives in pieces is simply looked at again
+		c.SetReadDeadline(time.Now().Add(20 * time.Millisecond))
+		hdr, err := rd.Peek(8)
+		if err != nil {
 			if ne, ok := err.(net.Error); ok && ne.Timeout() {
-				if rd.Buffered() > 0 {
-					return ids, fmt.Errorf("torn frame while draining")
-				}
 				continue
 			}
 			return ids, err
 		}
 		size := int(binary.BigEndian.Uint32(hdr[0:4]))
 		ft := int(binary.BigEndian.Uint32(hdr[4:8]))
+		if size < 4 || size > 16<<20 {
+			return ids, fmt.Errorf("bad frame size %d", size)
+		}
+		c.SetReadDeadline(time.Now().Add(60 * time.Second))
+		rd.Discard(8)
 		data := make([]byte, size-4)
-		c.SetReadDeadline(time.Now().Add(20 * time.Second))
 		if _, err := io.ReadFull(rd, data); err != nil {
 			return ids, err
 		}
